@@ -429,6 +429,15 @@ func (d *decoder) spec(s *sg.Spec, c content, labels []string) cty.Value {
 				return cty.BoolVal(v.IsNull())
 			}
 			return v.Equals(cty.NullVal(cty.DynamicPseudoType))
+		case "strlen":
+			// our own total function (not code under test), applied the way go-cty applies functions
+			r, err := sg.StrlenFunc.Call([]cty.Value{v})
+			if err != nil {
+				d.unsure = true
+				d.unsureValid = true
+				return cty.UnknownVal(cty.Number)
+			}
+			return r
 		}
 		panic("refdec: bad transform " + s.Fn)
 
